@@ -89,6 +89,7 @@ class Checker:
         self.hyp = collections.Counter()
         self.ops = 0
         self.l1_agree = 0
+        self.per_kind = collections.Counter()
 
     # ---- one failing case --------------------------------------------------
     def _fails_spec(self, sub):
@@ -110,6 +111,9 @@ class Checker:
         pre = [l for l in case[:j + 1] if l != "reset"]
         op = pre[-1]
         opk = op.split()[0]
+        self.per_kind[(kind, opk)] += 1
+        if self.per_kind[(kind, opk)] > 3:
+            return            # same op kind already reported three times (each with its shrunk case)
         if self.shrunk < 12:
             self.shrunk += 1
             pred = {"spec": self._fails_spec, "model": self._fails_model, "crash": self._fails_crash}[kind]
@@ -233,7 +237,7 @@ def check(run, replay=None):
     trusted = [
         "ENOMEM paths are outside: the allocator always succeeds in the harness, the model has no failure branch",
         "indexes >= 2^31-64 (C int overflow in the int-returning queries) are excluded by hypothesis in the theorems and never generated",
-        "hwloc_ffsl / hwloc_flsl / hwloc_weight_long are modelled by their specifications (ctz+1 / N.size / popcount) and validated against the compiled functions by the leaf sweep (all single bits, all pairs of bits, masks, random words); hwloc_flsl_manual is also modelled statement by statement and proved equal to N.size",
+        "hwloc_ffsl (__builtin_ffsl) and hwloc_weight_long (__builtin_popcountll) are modelled by their specifications (ctz+1 / popcount) and validated against the compiled functions by the leaf sweep (all single bits, all pairs of bits, prefix/suffix masks, random words); hwloc_flsl (= hwloc_flsl_manual in this configuration) is modelled statement by statement and proved equal to N.size (flsl_manual_is_size), and swept too",
         "aliasing (res==op1, res==op2, op1==op2) is covered by differential execution against the functional model, not by a store-level proof",
         "gcc -O1 -fsanitize=address,undefined build of hwloc/bitmap.c included textually in harness/hwv_bitmap.c",
     ]
@@ -252,6 +256,8 @@ def check(run, replay=None):
         if ec.strip():
             print("stderr:\n" + ec[-2000:])
         ck.check_lines(case)
+        run.cov["evaluations"] = ck.ops
+        run.cov["traces_validated_against_impl"] = ck.l1_agree
         run.cov["replayed"] = replay
         return run.finish(proof, trusted=trusted)
 
@@ -297,9 +303,17 @@ def check(run, replay=None):
         if len(cur) > 40000:
             chunks.append(cur)
             cur = []
+    run.cov["family_pairs"] = len(pairs)
+    rel = G.relation_matrix(3 if thorough else 2)
+    run.cov["relation_matrix_cases"] = len(rel)
+    for ops in rel:
+        cur += ["reset"] + ops
+        if len(cur) > 40000:
+            chunks.append(cur)
+            cur = []
     if cur:
         chunks.append(cur)
-    run.cov["family_pairs"] = len(pairs)
+        cur = []
     n_family_ops = sum(len(c) for c in chunks)
 
     # 5. random sequences
